@@ -159,6 +159,10 @@ def cmd_check(args):
     nworkers = args.workers or min(16, os.cpu_count() or 1)
     opts = _opts(args)
     t0 = time.monotonic()
+    if (args.budget_s is not None or args.runs is not None or args.no_selfcheck) \
+            and not os.environ.get("VERIF_EVIDENCE_DIR"):
+        # development / audit invocation: never overwrite the registered evidence file
+        core.EVIDENCE_DIR = os.path.join(core.VERIF_DIR, "evidence", ".dev")
 
     merged = core.run_batch(reg["engine"], prop, tier, master, budget, max_runs,
                             nworkers, watchdog_s=getattr(eng, "WATCHDOG_S", 120),
